@@ -38,6 +38,11 @@ def gen(rng, tier):
         steps = rng.choice([1, 1, 2, 3, 5, 10, 50, 200] if tier == 'quick' else list(range(1, 65)))
         yield {'trajs': trajs, 'lag': lag, 'start': rng.choice(present), 'steps': steps, 'seed': rng.randrange(2**31),
                'alpha': akind, 'tmat': None}
+    for _ in range(2 if tier == 'quick' else 12):       # transitions with probability below 1e-5
+        labs, akind = G.alphabet(rng, k=rng.randint(2, 4))
+        rle = G.rare_rle(rng, labs)
+        yield {'trajs': None, 'rle': rle, 'lag': 1, 'start': labs[0], 'steps': rng.choice([5, 50]), 'seed': rng.randrange(2**31),
+               'alpha': akind, 'tmat': None}
     for _ in range(10 if tier == 'quick' else 300):     # user-supplied matrices
         k = rng.randint(2, 6)
         T = []
@@ -101,7 +106,7 @@ def impl(case):
     out = {}
     nojit = bool(numba.config.DISABLE_JIT)
     if case['tmat'] is None:
-        trajs = [np.array(t) for t in case['trajs']]
+        trajs = [np.array(t) for t in G.expand(case)]
         st = mh.StateTraj(trajs)
         cm, perm = ts._get_cummat(trajs, case['lag'])
         out['states'] = [int(s) for s in st.states]
@@ -173,12 +178,34 @@ def impl(case):
 
 def requests(case):
     if case['tmat'] is None:
-        return [[703] + C.enested(case['trajs']) + [case['lag']]]
+        return [[703] + C.enested(G.expand(case)) + [case['lag']]]
     return [[704] + C.eQmat([[Fraction(x) for x in r] for r in case['tmat']])]
 
 
 def _cm(rd):
     return rd.list(lambda: (rd.Qs(), rd.Zs()))
+
+
+def check_cummat(cm, perm, Tex, states, P, estimated=True):
+    """cumulative matrix: interval k of row i has length T[i, perm k]; last value is 1; permutation valid"""
+    n = len(states)
+    tol = Fraction(1, 10**12)
+    for i in range(n):
+        if sorted(perm[i]) != list(range(n)):
+            P('impl-vs-spec', 'row %d: state permutation %s is not a permutation' % (i, perm[i]))
+            break
+        prev = Fraction(0)
+        for k in range(n):
+            want = Tex[i][perm[i][k]]
+            if sum(Tex[i]) == 0:
+                break
+            if abs((cm[i][k] - prev) - want) > tol:
+                P('impl-vs-spec', 'row %d: draws mapped to state %s form an interval of length %s, T = %s' % (
+                    i, states[perm[i][k]], float(cm[i][k] - prev), float(want)))
+                break
+            prev = cm[i][k]
+        if cm[i][-1] != 1 and estimated:
+            P('impl-vs-spec', 'row %d: last cumulative value is %s, not 1' % (i, float(cm[i][-1])))
 
 
 def judge(case, ibc, answers):
@@ -209,23 +236,7 @@ def judge(case, ibc, answers):
             continue
         cm = [[Fraction(float.fromhex(x)) for x in row] for row in r['cm']]
         perm = r['perm']
-        # cumulative matrix: interval k of row i has length T[i, perm k]; last value is 1; permutation valid
-        for i in range(n):
-            if sorted(perm[i]) != list(range(n)):
-                P('impl-vs-spec', 'row %d: state permutation %s is not a permutation' % (i, perm[i]))
-                break
-            prev = Fraction(0)
-            for k in range(n):
-                want = Tex[i][perm[i][k]]
-                if sum(Tex[i]) == 0:
-                    break
-                if abs((cm[i][k] - prev) - want) > tol:
-                    P('impl-vs-spec', 'row %d: draws mapped to state %s form an interval of length %s, T = %s' % (
-                        i, states[perm[i][k]], float(cm[i][k] - prev), float(want)))
-                    break
-                prev = cm[i][k]
-            if cm[i][-1] != 1 and case['tmat'] is None:
-                P('impl-vs-spec', 'row %d: last cumulative value is %s, not 1' % (i, float(cm[i][-1])))
+        check_cummat(cm, perm, Tex, states, P, estimated=case['tmat'] is None)
         # injected draws: model step on the implementation's own (rationalised) cumulative row
         for inj in r.get('inject', []):
             i = inj['row']
